@@ -116,6 +116,7 @@ type Sim struct {
 	nextPort   int
 	// DCSGate, when set, can fail a coordination call of an instance before it reaches the server.
 	DCSGate   func(inst, method, path string) error
+	zkSubs    []func(r fakezk.Rec) // called under the fake ZooKeeper's mutex; may lock the world, must not call the fake
 	dcsSubs   []func(inst, method, path, arg, res string)
 	iterSubs  []func(inst, state, next string, begin bool)
 	incarn    map[string]int
@@ -236,6 +237,9 @@ func New(dir string, o Opts) *Sim {
 	}
 	s.ZK.OnMutation = func(r fakezk.Rec) {
 		s.cacheUpdate(r)
+		for _, f := range s.zkSubs {
+			f(r)
+		}
 		if strings.HasPrefix(r.Path, NS+"/health/") && r.Op == "set" {
 			return // periodic health refresh; the dcs log has it
 		}
@@ -490,6 +494,9 @@ func (s *Sim) KillLocked(in *Inst) {
 // OnDCS subscribes to every recorded coordination call (called outside all mutexes, after the call returned).
 // Subscriptions must be made before instances start.
 func (s *Sim) OnDCS(f func(inst, method, path, arg, res string)) { s.dcsSubs = append(s.dcsSubs, f) }
+
+// OnZK subscribes to every mutation of the coordination tree (called under the fake's mutex, after the cache update).
+func (s *Sim) OnZK(f func(r fakezk.Rec)) { s.zkSubs = append(s.zkSubs, f) }
 
 // OnIter subscribes to the begin/end of every state handler.
 func (s *Sim) OnIter(f func(inst, state, next string, begin bool)) {
